@@ -55,14 +55,14 @@ func init() {
 		ref := ptrTerm(a[0].(*PtrV))
 		iv := a[1].(IfaceV)
 		ex.emit(st, "safety", ex.srcLabel(fr.Fn, pos, "atomic.Value.Store(nil)"), Neq(iv.Tag, Zero), pos, []string{"C17"})
-		ex.checkFrame(st, &PtrV{Root: RObj, Ref: ref, Class: "atomic.Value", Path: []PathElem{{Field: 0}}}, pos)
-		st.heapSet("atomic.Value.$tag", Store(st.heapGet("atomic.Value.$tag", SArr(SInt, SInt)), ref, iv.Tag))
-		st.heapSet("atomic.Value.$val", Store(st.heapGet("atomic.Value.$val", SArr(SInt, SInt)), ref, iv.Val))
+		ex.checkFrame(st, &PtrV{Root: RObj, Ref: ref, Class: "atomic.Value", RT: a[0].(*PtrV).Elem, Path: []PathElem{{Field: 0}}}, pos)
+		st.heapSet("atomic.Value.v@tag", Store(st.heapGet("atomic.Value.v@tag", SArr(SInt, SInt)), ref, iv.Tag))
+		st.heapSet("atomic.Value.v@val", Store(st.heapGet("atomic.Value.v@val", SArr(SInt, SInt)), ref, iv.Val))
 		return TupleV{}
 	}
 	models["(*sync/atomic.Value).Load"] = func(ex *Exec, st *State, fr *Frame, fn *ssa.Function, a []Value, pos token.Pos) Value {
 		ref := ptrTerm(a[0].(*PtrV))
-		iv := IfaceV{Select(st.heapGet("atomic.Value.$tag", SArr(SInt, SInt)), ref), Select(st.heapGet("atomic.Value.$val", SArr(SInt, SInt)), ref)}
+		iv := IfaceV{Select(st.heapGet("atomic.Value.v@tag", SArr(SInt, SInt)), ref), Select(st.heapGet("atomic.Value.v@val", SArr(SInt, SInt)), ref)}
 		ex.assumeInv(st, types.NewInterfaceType(nil, nil), iv)
 		return iv
 	}
